@@ -18,7 +18,8 @@ if [ "$applies" = false ]; then echo "{\"id\":\"$id-$x\",\"applies_to_head\":fal
 # where does the demo go? take the package clause + notes
 demo="$src/$x.demo_test.go"
 pkgline=$(grep -m1 '^package ' "$demo" | awk '{print $2}')
-dir=${DEMODIR:-$(grep -oE 'pkg/[a-z/]+/|cmd/' "$src/$x.notes.md" | head -1)}
+declared=$(grep -m1 -oE '^DEMO_DIR: *[^ ]+' "$src/$x.notes.md" | sed 's/^DEMO_DIR: *//; s#^/*##; s#/*$#/#')
+dir=${DEMODIR:-${declared:-$(grep -oE 'pkg/[a-z/]+/|cmd/' "$src/$x.notes.md" | head -1)}}
 [ "$pkgline" = main ] && dir=cmd/
 [ -z "$dir" ] && dir=$(git apply --numstat "$src/$x.patch.diff" | awk '{print $3}' | head -1 | xargs dirname)/
 cp "$demo" "$wt/${dir}zz_seed_demo_test.go"
